@@ -3,6 +3,9 @@ package main
 import (
 	"encoding/json"
 	"fmt"
+	"os"
+	"os/exec"
+	"path/filepath"
 	"strings"
 
 	simdjson "github.com/minio/simdjson-go"
@@ -41,16 +44,23 @@ func c15Docs() []c15Doc {
 
 // c15Op: kind 0 Parse, 1 ParseND, 2 edit, 3 Deserialize into cur
 type c15Op struct {
-	Kind int  `json:"kind"`
-	Doc  int  `json:"doc"`
-	Copy bool `json:"copy"`
+	Kind    int  `json:"kind"`
+	Doc     int  `json:"doc"`
+	Copy    bool `json:"copy"`
+	Default bool `json:"default,omitempty"` // call without any option (copying is the default)
 }
 
 func (o c15Op) str(docs []c15Doc) string {
 	switch o.Kind {
 	case 0:
+		if o.Default {
+			return fmt.Sprintf("Parse(%s) [no options]", docs[o.Doc].name)
+		}
 		return fmt.Sprintf("Parse(%s, copy=%v)", docs[o.Doc].name, o.Copy)
 	case 1:
+		if o.Default {
+			return fmt.Sprintf("ParseND(%s) [no options]", docs[o.Doc].name)
+		}
 		return fmt.Sprintf("ParseND(%s, copy=%v)", docs[o.Doc].name, o.Copy)
 	case 2:
 		return []string{"SetStringBytes on first scalar", "DeleteElems first member of first container", "SetNull first container member"}[o.Doc]
@@ -168,12 +178,29 @@ func (c *c15ctx) run(hist []c15Op) (what, fp string) {
 			d := c.docs[o.Doc]
 			// private copy of the input: Deserialize into a reused object writes its message
 			// section into that object's Message, which aliases the caller's input buffer
-			pj, err, p := doParse(Cfg{hasAVX512, o.Copy}, append([]byte(nil), d.text...), cur, o.Kind == 1)
+			in := append([]byte(nil), d.text...)
+			var pj *simdjson.ParsedJson
+			var err error
+			var p string
+			if o.Default {
+				pj, err, p = doParseDefault(hasAVX512, in, cur, o.Kind == 1)
+			} else {
+				pj, err, p = doParse(Cfg{hasAVX512, o.Copy}, in, cur, o.Kind == 1)
+			}
 			if p != "" {
 				return fmt.Sprintf("call %d %s panicked with a reused object: %s", i, o.str(c.docs), p), "panic"
 			}
 			got := outcome(pj, err, len(d.text) > 4096)
-			want := c.expect[fmt.Sprint(o.Kind, o.Doc, o.Copy)]
+			if got.ok && (o.Copy || o.Default) {
+				// copy mode: the result must not depend on the input buffer any more
+				for k := range in {
+					in[k] = '#'
+				}
+				if after := outcome(pj, err, true); after.exact != got.exact && !strings.HasPrefix(got.exact, "WALKERS") {
+					return fmt.Sprintf("call %d %s with reuse: the result changed when the input buffer was overwritten afterwards (strings were not copied): %s", i, o.str(c.docs), clip(after.exact)), "copy-mode-lost"
+				}
+			}
+			want := c.expect[fmt.Sprint(o.Kind, o.Doc, o.Copy || o.Default)]
 			if got.ok != want.ok {
 				return fmt.Sprintf("call %d %s with reuse: err=%v; without reuse it %s", i, o.str(c.docs), err, map[bool]string{true: "succeeds", false: "fails"}[want.ok]), "outcome"
 			}
@@ -220,6 +247,8 @@ func c15Alphabet(c *c15ctx) []c15Op {
 		}
 	}
 	ops = append(ops, c15Op{Kind: 0, Doc: 9, Copy: true}) // Parse on an NDJSON text: must fail
+	// calls without options: copying is the documented default, whatever the reused object did before
+	ops = append(ops, c15Op{Kind: 0, Doc: 0, Default: true}, c15Op{Kind: 0, Doc: 1, Default: true}, c15Op{Kind: 0, Doc: 4, Default: true}, c15Op{Kind: 1, Doc: 9, Default: true})
 	for e := 0; e < 3; e++ {
 		ops = append(ops, c15Op{Kind: 2, Doc: e})
 	}
@@ -307,5 +336,64 @@ func init() {
 		assume: []string{"the Go scheduler decides the interleaving of the two stages for concurrent-path documents (C07 explores those schedules)", "after a failed call the API returns no object, so nothing of the failed call can be reused; the harness passes the last successful result, as a caller would"},
 		body:   c15Body,
 		replay: c15Replay,
+		post:   c15Post,
 	})
+}
+
+// c15Post runs the scheduled part (C15S, instrumented binary) and merges its result.
+func c15Post(m *Result, tier string) {
+	bin := os.Getenv("VERIF_SCHED_BIN")
+	if bin == "" {
+		m.Fatal = "instrumented binary not provided (VERIF_SCHED_BIN)"
+		return
+	}
+	sub := filepath.Join(os.Getenv("VERIF_SCRATCH"), "sub-evidence")
+	cmd := exec.Command(bin, "C15S", tier)
+	cmd.Env = append(os.Environ(), "VERIF_EVIDENCE_DIR="+sub, "GOMAXPROCS=1")
+	out, err := cmd.CombinedOutput()
+	text := string(out)
+	if ee, ok := err.(*exec.ExitError); ok && ee.ExitCode() == 3 || (err != nil && !strings.Contains(text, "C15S "+tier+":")) {
+		m.Fatal = "scheduled part of C15 failed: " + clip(text)
+		return
+	}
+	b, rerr := os.ReadFile(filepath.Join(sub, "C15S.json"))
+	if rerr != nil {
+		m.Fatal = "scheduled part of C15 wrote no evidence: " + clip(text)
+		return
+	}
+	var ev struct {
+		Coverage struct {
+			Evaluations int64 `json:"evaluations"`
+			States      int64 `json:"states"`
+			Transitions int64 `json:"transitions"`
+			Validated   int64 `json:"traces_validated_against_impl"`
+			Exhaustive  bool  `json:"exhaustive"`
+			Notes       []string
+		} `json:"coverage"`
+	}
+	json.Unmarshal(b, &ev)
+	m.Evaluations += ev.Coverage.Evaluations
+	m.States += ev.Coverage.States
+	m.Transitions += ev.Coverage.Transitions
+	m.Validated += ev.Coverage.Validated
+	if !ev.Coverage.Exhaustive {
+		m.Capped = true
+	}
+	if m.Counters == nil {
+		m.Counters = map[string]int64{}
+	}
+	m.Counters["scheduled_deserialize_reuse_schedules"] = ev.Coverage.Evaluations
+	m.Notes = append(m.Notes, "scheduled part (instrumented build, controlled scheduler): "+strings.Join(ev.Coverage.Notes, " "))
+	// violations of the sub-run: replay files were written by it
+	lines := strings.Split(text, "\n")
+	for i, l := range lines {
+		if strings.HasPrefix(l, "VIOLATION property=C15S replay=") {
+			path := strings.TrimPrefix(l, "VIOLATION property=C15S replay=")
+			var v Violation
+			if rb, err := os.ReadFile(path); err == nil && json.Unmarshal(rb, &v) == nil {
+				_ = i
+				m.Violations = append(m.Violations, v) // keeps property C15S so that replay goes to the instrumented binary
+			}
+		}
+	}
 }
